@@ -485,7 +485,7 @@ def hostile_cases(draw, only=None):
         lines = ["BEGIN:VCALENDAR", "BEGIN:VFREEBUSY", f"FREEBUSY:{a}/{b}", "END:VFREEBUSY", "BEGIN:VEVENT", f"RDATE;VALUE=PERIOD:{a}/{b}",
                  f"RDATE:{a}/{b},{b}/{a}", "END:VEVENT", "END:VCALENDAR"]
     else:
-        d = draw(st.sampled_from([1, 8, 33, 64, 120, 300, 1000]))
+        d = draw(st.sampled_from([1, 8, 33, 64, 120, 1000, 1000]))
         name = draw(st.sampled_from(["VEVENT", "VCALENDAR", "X-A", "VTIMEZONE", "VALARM"]))
         unbalanced = draw(st.sampled_from([0, 0, 1, -1]))
         lines = [f"BEGIN:{name}"] * d + ["SUMMARY:deep"] + [f"END:{name}"] * max(0, d + unbalanced)
